@@ -92,6 +92,7 @@ class Gen {
       [this.inGen ? 2 : 0, () => `(yield ${sub()})`],
       [this.inAsync ? 2 : 0, () => `(await ${sub()})`],
       [0.5, () => `aloneMethod(${sub()})`],
+      [0.4, () => `aloneMethod(${this.atom()}, ${sub()}, ${sub()})`],
       [0.5, () => `[${sub()}, ${sub()}].join(${this.atom()})`],
       [0.5, () => `new w.C${this.id()}(${sub()}).s1`],
       [0.6, () => `w.tag${this.id()}\`a\${${sub()}}b\``],
@@ -326,7 +327,7 @@ function genProgram (rng, opts = {}) {
   const asyncMain = !!opts.asyncMain
   g.inAsync = asyncMain
   g.emit(0, `${opts.module ? 'export default ' : ''}(${asyncMain ? 'async ' : ''}function main(w) {${strict ? " 'use strict';" : ''}`)
-  g.emit(1, 'function aloneMethod(x) { return w.id9(x) }')
+  g.emit(1, 'function aloneMethod(x, y, z) { return w.id9(x, y, z) }')
   const nLocals = rng.range(1, 3)
   for (let i = 0; i < nLocals; i++) { const v = g.declare('str'); g.emit(1, `let ${v} = w.s${g.id()};`) }
   const n = rng.range(3, opts.topStmts || 8)
